@@ -2721,6 +2721,14 @@ class SymEx:
         Returns None when the call does not have that shape (the caller falls back to the opaque
         model)."""
         a = self.eval(st, args[0])
+        if name == 'fill_n' and isinstance(a, tuple) and a and a[0] == 'backins' and len(args) == 3:
+            # std::fill_n(std::back_inserter(v), n, x): n copies appended, like v.insert(v.end(), n, x)
+            n_ = self.eval(st, args[1])
+            val = self.eval(st, args[2])
+            cur = self.read(st, a[1])
+            kk = sym(self.fresh('k@fill'))
+            self.write(st, a[1], ('vcomp', cur, kk, ZERO, n_, TRUE, val))
+            return ('ext', self.fresh(name))
         if name == 'generate_n' and isinstance(a, tuple) and a and a[0] == 'backins' and len(args) == 3:
             # std::generate_n(std::back_inserter(v), n, f): n times v.push_back(f())
             fv = self.eval(st, args[2])
